@@ -122,34 +122,62 @@ pub struct StdinCase {
     pub template: usize,
     pub preset: Option<usize>,
     pub flow: bool,
+    /// clock-free extra flags, one bit each: 1 --no-bump-context, 2 --clean, 4 --no-dirty,
+    /// 8 --tag-version, 16 --bumped-timestamp, 32 --bump-minor, 64 --source none instead of stdin
+    #[serde(default)]
+    pub extra: u8,
+    /// which of bumped_timestamp / last_timestamp the object lacks (bit 1 / bit 2)
+    #[serde(default)]
+    pub unset: u8,
 }
 fn day_edge_ts() -> BoxedStrategy<u64> {
     // within 14 h of a day boundary, so that any local-time use changes a printed field
     (0u64..84000, prop_oneof![0u64..50400, 36000u64..86400]).prop_map(|(d, s)| d * 86400 + s).boxed()
 }
 fn stdin_case() -> BoxedStrategy<StdinCase> {
-    (zg::mzerv(false), day_edge_ts(), day_edge_ts(), 0u8..4, 0usize..10, proptest::option::weighted(0.5, 0usize..22), prop::bool::weighted(0.25))
-        .prop_map(|(mut z, t1, t2, render, template, preset, flow)| {
+    (zg::mzerv(false), day_edge_ts(), day_edge_ts(), 0u8..4, 0usize..10, proptest::option::weighted(0.5, 0usize..22), prop::bool::weighted(0.25), prop_oneof![2 => Just(0u8), 3 => 0u8..128], prop_oneof![3 => Just(0u8), 1 => 1u8..4])
+        .prop_map(|(mut z, t1, t2, render, template, preset, flow, extra, unset)| {
             // no wall-clock path in this check: a dirty state replaces the timestamp by "now"
             // (bracketed in C02/C04/C06), so every compared run here is clock-free and must be identical
             if z.vars.dirty == Some(true) {
                 z.vars.dirty = Some(false);
             }
-            z.vars.bumped_timestamp = Some(t1);
-            z.vars.last_timestamp = Some(t2);
+            z.vars.bumped_timestamp = if unset & 1 != 0 { None } else { Some(t1) };
+            z.vars.last_timestamp = if unset & 2 != 0 { None } else { Some(t2) };
+            // --clean conflicts with --no-dirty; flow takes no --tag-version-less source none
+            let extra = if extra & 2 != 0 { extra & !4 } else { extra };
             if z.vars.bumped_branch.is_none() {
                 z.vars.bumped_branch = Some("feature/x".into());
             }
             // make sure something time-derived is in the schema
             z.schema.build.push(MComp::Var(MVar::Ts("HH".into())));
             z.schema.build.push(MComp::Var(MVar::Ts("compact_date".into())));
-            StdinCase { z, render, template, preset, flow }
+            StdinCase { z, render, template, preset, flow, extra, unset }
         })
         .boxed()
 }
 fn check_stdin(c: &StdinCase, cx: &mut Cx) -> Res {
     let Ok(zerv) = c.z.to_zerv() else { return fail("harness bug: invalid object") };
-    let mut args = vec![if c.flow { "flow".to_string() } else { "version".to_string() }, "--source=stdin".into()];
+    let source_none = c.extra & 64 != 0;
+    let mut args = vec![if c.flow { "flow".to_string() } else { "version".to_string() }, if source_none { "--source=none".into() } else { "--source=stdin".to_string() }];
+    for (bit, flags) in [
+        (1u8, &["--no-bump-context"][..]),
+        (2, &["--clean"][..]),
+        (4, &["--no-dirty"][..]),
+        (16, &["--bumped-timestamp=86399"][..]),
+        (32, &["--bump-minor"][..]),
+    ] {
+        if c.extra & bit != 0 && !(c.flow && (bit == 1 || bit == 32)) {
+            args.extend(flags.iter().map(|s| s.to_string()));
+        }
+    }
+    if c.extra & 8 != 0 || source_none {
+        args.push("--tag-version=3.2.1-rc.4".into());
+        args.push("--input-format=semver".into());
+    }
+    if source_none && c.flow {
+        args.push("--bumped-branch=feature/x".into());
+    }
     if let Some(p) = c.preset {
         args.push(format!("--schema={}", if c.flow { zg::PRESETS[p % 11] } else { zg::PRESETS[p % 22] }));
     }
@@ -168,7 +196,10 @@ fn check_stdin(c: &StdinCase, cx: &mut Cx) -> Res {
     cx.nt();
     let clocked = false;
     cx.label_if(c.flow, "flow");
-    let spec = proc::Spec { args, stdin: Some(zerv.to_string().into_bytes()), cwd: Some("/".into()), ..Default::default() };
+    cx.label_if(c.extra & 1 != 0, "--no-bump-context");
+    cx.label_if(source_none, "source-none");
+    cx.label_if(c.unset != 0, "a-timestamp-unset");
+    let spec = proc::Spec { args, stdin: if source_none { None } else { Some(zerv.to_string().into_bytes()) }, cwd: Some("/".into()), ..Default::default() };
     compare_all(&spec, "/usr", clocked, cx)
 }
 
